@@ -164,6 +164,7 @@ class World:
             raise ConnectionRefusedError(111, "Connection refused")
         idx, spec = self._conn_spec()
         conn = net.SimSocket(self, idx, host, port, peer, spec)
+        conn._timeout = timeout if isinstance(timeout, (int, float)) else None  # like socket.create_connection(timeout=...)
         conn.tamper = self.tampers.get(idx)
         conn.tx_tamper = self.tx_tampers.get(idx)
         self.conns.append(conn)
